@@ -28,6 +28,10 @@ def auto(site):
         n = q.const_val(d['args'][1]) if len(d.get('args', [])) > 1 else None
         if isinstance(n, int) and n > 0:
             return 'chunk size is the non-zero constant %d' % n
+    if site.kind == 'ext:clamp':
+        rs = d.get('arg_ranges') or []
+        if len(rs) == 3 and rs[1] is not None and rs[2] is not None and rs[1][1] <= rs[2][0]:
+            return 'clamp(min, max): min in %s never exceeds max in %s' % (rs[1], rs[2])
     if site.kind == 'assert-other' and ('vec' in site.macros or 'format' in site.macros or 'format_args' in site.macros):
         return 'compiler-inserted pointer check inside a std macro expansion (%s) on a freshly allocated box' % site.macros[0]
     return None
